@@ -9,6 +9,7 @@ import (
 	"pgregory.net/rapid"
 	"verifharness/internal/ev"
 	"verifharness/internal/gen"
+	"verifharness/internal/kf"
 	"verifharness/internal/rt"
 )
 
@@ -98,6 +99,14 @@ func TestC13(t *testing.T) {
 			t.Fatalf("Equal(%v,%v)=%v but model compare=%d", a, b, deepEq(a.V, b.V), want)
 		}
 		emptyStr := (a.Kind == gen.KStr && a.S == "") || (b.Kind == gen.KStr && b.S == "")
+		if negPrefix(a, b, pa, pb) {
+			if e, ok := kf.Known("C13", "negative-number-prefix-order"); ok {
+				rec.Excluded("negative-number-prefix-order")
+				rec.Known(e.What)
+				rec.Case(false, "")
+				return
+			}
+		}
 		if !emptyStr {
 			got := strings.Compare(pa, pb)
 			if got != want {
@@ -125,6 +134,19 @@ func TestC13(t *testing.T) {
 			rec.Sample("order_pair", map[string]string{"a": a.String(), "b": b.String(), "pa": fmt.Sprintf("%x", pa), "pb": fmt.Sprintf("%x", pb), "cmp": fmt.Sprint(want)})
 		}
 	})
+}
+
+// negPrefix: two different negative numbers where the packed form of one is
+// a proper prefix of the other's (known finding negative-number-prefix-order:
+// the shorter one sorts first although it is the larger number).
+func negPrefix(a, b gen.MV, pa, pb string) bool {
+	if a.Kind != gen.KNum || b.Kind != gen.KNum || pa == pb || len(pa) < 2 || len(pb) < 2 {
+		return false
+	}
+	if pa[0] != core.PackMinus || pb[0] != core.PackMinus {
+		return false
+	}
+	return strings.HasPrefix(pa, pb) || strings.HasPrefix(pb, pa)
 }
 
 // FuzzC13Unpack (thorough tier only): coverage-guided search over raw bytes.
@@ -177,6 +199,9 @@ func FuzzC13Values(f *testing.F) {
 			t.Fatalf("canonical form: %v (%x) vs %v (%x) model %d", a, pa, b, pb, want)
 		}
 		emptyStr := (a.Kind == gen.KStr && a.S == "") || (b.Kind == gen.KStr && b.S == "")
+		if _, ok := kf.Known("C13", "negative-number-prefix-order"); ok && negPrefix(a, b, pa, pb) {
+			return
+		}
 		if !emptyStr && strings.Compare(pa, pb) != want {
 			t.Fatalf("packed order %d != value order %d for %v (%x) vs %v (%x)", strings.Compare(pa, pb), want, a, pa, b, pb)
 		}
